@@ -516,3 +516,113 @@ Proof.
     intros _. exists (ready s2). reflexivity.
   - intros _ _ c' Hne. now apply deliver_scopes_other.
 Qed.
+
+(* ---------------- retry flag of deliver, without any assumption on the kernel state ---------------- *)
+Lemma deliver_task_retry self origin a r t :
+  snd (deliver_task self origin (a, r) t) = match k_done (tasks a t) with Some _ => r | None => true end.
+Proof.
+  unfold deliver_task. destruct (k_done (tasks a t)); [reflexivity|].
+  destruct (k_must (tasks a t)); [reflexivity|]. destruct (_ && _); [|reflexivity].
+  destruct (match k_waiter (tasks a t) with Some f => fut_pending a f | None => true end); reflexivity.
+Qed.
+
+Lemma fold_deliver_task_retry s0 self origin l : forall a r, kframe s0 a ->
+  (snd (fold_left (deliver_task self origin) l (a, r)) = true <->
+   r = true \/ exists t, In t l /\ k_done (tasks s0 t) = None).
+Proof.
+  induction l as [|t l IH]; intros a r K; cbn [fold_left].
+  - cbn. split; [now left|]. intros [H|[t [[] _]]]. exact H.
+  - pose proof (deliver_task_retry self origin a r t) as Hr.
+    pose proof (kframe_deliver_task self origin a r t) as Ks.
+    destruct (deliver_task self origin (a, r) t) as [a1 r1]. cbn [fst snd] in *.
+    rewrite (IH a1 r1 (kframe_trans _ _ _ K Ks)). subst r1.
+    rewrite (tcore_done _ _ (kf_tasks _ _ K t)).
+    destruct (k_done (tasks s0 t)) eqn:Ed.
+    + split.
+      * intros [H|[t' [Hin Hd]]]; [now left|]. right. exists t'. split; [now right|exact Hd].
+      * intros [H|[t' [[->|Hin] Hd]]]; [now left|congruence|]. right. exists t'. now split.
+    + split; [|now left]. intros _. right. exists t. split; [now left|exact Ed].
+Qed.
+
+Lemma deliver_retry s0 origin fu : forall a self, kframe s0 a ->
+  (snd (deliver fu a self origin) = true <-> exists x t, dreach s0 fu self x t /\ k_done (tasks s0 t) = None).
+Proof.
+  induction fu as [|fu IH]; intros a self K.
+  - cbn. split; [discriminate|]. intros [x [t [H _]]]. inversion H.
+  - rewrite deliver_unfold.
+    pose proof (fold_deliver_task_retry s0 self origin (s_tasks (scopes a self)) a false K) as Hr1.
+    pose proof (kframe_fold_deliver_task self origin (s_tasks (scopes a self)) a false) as K1.
+    destruct (fold_left (deliver_task self origin) (s_tasks (scopes a self)) (a, false)) as [s1 r1].
+    cbn [fst snd] in *.
+    assert (Ks1 : kframe s0 s1) by (eapply kframe_trans; eauto).
+    assert (F : forall l b r, kframe s0 b ->
+              kframe s0 (fst (fold_left (dstep fu origin) l (b, r))) /\
+              (snd (fold_left (dstep fu origin) l (b, r)) = true <-> r = true \/
+               exists ch x t, In ch l /\ s_shield (scopes s0 ch) = false /\ s_cancelled (scopes s0 ch) = false /\
+                              dreach s0 fu ch x t /\ k_done (tasks s0 t) = None)).
+    { induction l as [|c l IHl]; intros b r Kb; cbn [fold_left].
+      - cbn. split; [exact Kb|]. split; [now left|]. intros [H|[ch [x [t [[] _]]]]]. exact H.
+      - assert (Es : dstep fu origin (b, r) c =
+                     if negb (s_shield (scopes s0 c)) && negb (s_cancelled (scopes s0 c))
+                     then (let '(a', r') := deliver fu b c origin in (a', r' || r)) else (b, r)).
+        { unfold dstep.
+          now rewrite (core_shield _ _ (kf_scopes _ _ Kb c)), (core_cancelled _ _ (kf_scopes _ _ Kb c)). }
+        rewrite Es. clear Es.
+        destruct (negb (s_shield (scopes s0 c)) && negb (s_cancelled (scopes s0 c))) eqn:Eg.
+        + apply andb_true_iff in Eg. destruct Eg as [Eg1 Eg2]. apply negb_true_iff in Eg1, Eg2.
+          pose proof (IH b c Kb) as Hr. pose proof (kframe_deliver fu b c origin) as Kd.
+          destruct (deliver fu b c origin) as [b' r']. cbn [fst snd] in *.
+          destruct (IHl b' (r' || r) (kframe_trans _ _ _ Kb Kd)) as [Kl Hl]. split; [exact Kl|].
+          rewrite Hl, orb_true_iff, Hr. split.
+          * intros [[[x [t [Hd Hk]]]|H]|[ch [x [t [Hin H]]]]].
+            -- right. exists c, x, t. repeat split; try assumption. now left.
+            -- now left.
+            -- right. exists ch, x, t. split; [now right|exact H].
+          * intros [H|[ch [x [t [[->|Hin] [H1 [H2 [H3 H4]]]]]]]].
+            -- left. now right.
+            -- left. left. now exists x, t.
+            -- right. exists ch, x, t. repeat split; assumption.
+        + destruct (IHl b r Kb) as [Kl Hl]. split; [exact Kl|]. rewrite Hl. split.
+          * intros [H|[ch [x [t [Hin H]]]]]; [now left|]. right. exists ch, x, t. split; [now right|exact H].
+          * intros [H|[ch [x [t [[->|Hin] [H1 [H2 [H3 H4]]]]]]]]; [now left| |].
+            -- rewrite H1, H2 in Eg. discriminate.
+            -- right. exists ch, x, t. repeat split; assumption. }
+    destruct (F (s_children (scopes s1 self)) s1 r1 Ks1) as [_ Hr2].
+    destruct (fold_left (dstep fu origin) (s_children (scopes s1 self)) (s1, r1)) as [s2 r2].
+    cbn [fst snd] in *.
+    assert (G3 : r2 = true <-> exists x t, dreach s0 (S fu) self x t /\ k_done (tasks s0 t) = None).
+    { rewrite Hr2, Hr1. split.
+      - intros [[H|[t [Hin Hd]]]|[ch [x [t [Hin [H1 [H2 [H3 H4]]]]]]]]; [discriminate| |].
+        + exists self, t. split; [|exact Hd]. apply dr_here.
+          now rewrite <- (core_tasks _ _ (kf_scopes _ _ K self)).
+        + exists x, t. split; [|exact H4]. eapply dr_child; eauto.
+          now rewrite <- (core_children _ _ (kf_scopes _ _ Ks1 self)).
+      - intros [x [t [Hd Hk]]]. inversion Hd; subst.
+        + left. right. exists t. split; [|exact Hk].
+          now rewrite (core_tasks _ _ (kf_scopes _ _ K x)).
+        + right. exists ch, x, t. repeat split; try assumption.
+          now rewrite (core_children _ _ (kf_scopes _ _ Ks1 self)). }
+    destruct (Nat.eqb origin self); [destruct r2|]; cbn [snd]; exact G3.
+Qed.
+
+Lemma deliver_top_chandle s c :
+  s_chandle (scopes (deliver_top s c) c) = true <->
+  exists x t, dreach s (S (nscope s)) c x t /\ k_done (tasks s t) = None.
+Proof.
+  rewrite <- (deliver_retry s c (S (nscope s)) s c (kframe_refl s)).
+  unfold deliver_top. rewrite deliver_unfold.
+  destruct (fold_left (deliver_task c c) (s_tasks (scopes s c)) (s, false)) as [s1 r1].
+  destruct (fold_left (dstep (nscope s) c) (s_children (scopes s1 c)) (s1, r1)) as [s2 r2].
+  rewrite Nat.eqb_refl. destruct r2; cbn; unfold upd; rewrite Nat.eqb_refl; cbn; split; auto.
+Qed.
+
+Lemma deliver_top_ready s c :
+  s_chandle (scopes (deliver_top s c) c) = true -> In (HDeliver c) (ready (deliver_top s c)).
+Proof.
+  unfold deliver_top. rewrite deliver_unfold.
+  destruct (fold_left (deliver_task c c) (s_tasks (scopes s c)) (s, false)) as [s1 r1].
+  destruct (fold_left (dstep (nscope s) c) (s_children (scopes s1 c)) (s1, r1)) as [s2 r2].
+  rewrite Nat.eqb_refl. destruct r2; cbn; unfold upd; rewrite Nat.eqb_refl; cbn.
+  - intros _. apply in_or_app. right. now left.
+  - discriminate.
+Qed.
